@@ -15,6 +15,20 @@ void trap(Trap t) { mc_fail("trap %d", (int)t); for (;;) {} }
 typedef struct { char kind; U32 arg; } op_t;
 typedef struct { int n; op_t op[8]; mInstance* inst; int id; } prog_t;
 
+#ifdef IMPORTED_MEM
+/* the module imports its shared memory: the embedder allocates it and answers the import */
+#define MEM(inst) ((inst)->env__mem)
+static wasmMemory* the_mem;
+static void* resolve(const char* module, const char* name) {
+    if (!strcmp(module, "env") && !strcmp(name, "mem")) return the_mem;
+    mc_fail("unexpected import %s.%s", module, name);
+    return NULL;
+}
+#else
+#define MEM(inst) ((inst)->m0)
+#define resolve NULL
+#endif
+
 static mInstance parent;
 static prog_t prog[8];
 static int nprog;
@@ -42,9 +56,12 @@ void mc_harness_main(int argc, char** argv) {
     pthread_t t[8];
     nprog = argc;
     if (nprog > 8) mc_fail("too many threads");
-    mInstantiate(&parent, NULL);
-    data0 = parent.m0->data;
-    max0 = parent.m0->maxPages;
+#ifdef IMPORTED_MEM
+    the_mem = WASM_MEMORY_ALLOCATE_SHARED(MEM_INIT, MEM_MAX);
+#endif
+    mInstantiate(&parent, resolve);
+    data0 = MEM(&parent)->data;
+    max0 = MEM(&parent)->maxPages;
     for (int i = 0; i < nprog; i++) {
         prog_t* p = &prog[i];
         const char* s = argv[i];
@@ -57,15 +74,15 @@ void mc_harness_main(int argc, char** argv) {
             if (*s == '.') s++;
         }
         p->inst = mNewChild(&parent);          /* one child instance per model thread, sharing the parent's memory */
-        if (p->inst->m0 != parent.m0) mc_fail("NewChild did not share the parent's memory");
+        if (MEM(p->inst) != MEM(&parent)) mc_fail("NewChild did not share the parent's memory");
     }
-    mc_obs("init pages=%u max=%u shared=%d", parent.m0->pages, parent.m0->maxPages, (int)parent.m0->shared);
+    mc_obs("init pages=%u max=%u shared=%d", MEM(&parent)->pages, MEM(&parent)->maxPages, (int)MEM(&parent)->shared);
     for (int i = 0; i < nprog; i++) mc_thread_create(&t[i], NULL, body, &prog[i]);
     for (int i = 0; i < nprog; i++) mc_thread_join(t[i], NULL);
 }
 
 MC_NO_TSAN void mc_harness_end(int blocked) {
-    wasmMemory* m = parent.m0;
+    wasmMemory* m = MEM(&parent);
     mc_end("pages=%u size=%u max=%u data=%s blocked=%d", m->pages, m->size, m->maxPages, m->data == data0 ? "same" : "moved", blocked);
     (void)max0;
 }
